@@ -139,3 +139,37 @@ fn blocking_send_on_a_full_channel_is_delivered_without_further_traffic() {
         }
     }
 }
+
+#[test]
+fn rendezvous_channel_reports_closed_and_is_removed() {
+    // single-threaded and deterministic: capacity 0, the only sender is dropped before the first dispatch
+    let mut el: EventLoop<Got> = EventLoop::try_new().unwrap();
+    let (tx, rx) = sync_channel::<(u8, u32)>(0);
+    el.handle().insert_source(rx, cb).unwrap();
+    drop(tx);
+    let mut got = Got::default();
+    drive(&mut el, &mut got, 0);
+    check(&got, 0, 0);
+}
+
+#[test]
+fn rendezvous_channel_takes_the_message_of_a_sender_that_is_already_blocked() {
+    // the sender is (almost certainly) parked in send() before the first dispatch: not the D11 window, which needs the
+    // loop to look at the queue between try_send's wake-up and the blocking send
+    for _round in 0..10 {
+        let mut el: EventLoop<Got> = EventLoop::try_new().unwrap();
+        let (tx, rx) = sync_channel::<(u8, u32)>(0);
+        el.handle().insert_source(rx, cb).unwrap();
+        let th = std::thread::spawn(move || { tx.send((0, 0)).unwrap(); });
+        std::thread::sleep(Duration::from_millis(60));
+        let mut got = Got::default();
+        let t = Instant::now();
+        while got.msgs.is_empty() {
+            el.dispatch(Duration::from_millis(50), &mut got).unwrap();
+            assert!(t.elapsed() < Duration::from_secs(2), "the message offered by a blocked sender was never taken");
+        }
+        th.join().unwrap();
+        drive(&mut el, &mut got, 1);
+        check(&got, 1, 1);
+    }
+}
